@@ -6,8 +6,8 @@ import Tickit.Gen.EvLoop
   C17 — Timers and deferred callbacks run once, on time, in order, unless cancelled.
 
   The model (`Tickit.EvLoop`, Model/EvLoop.lean) transcribes src/tickit.c and src/evloop-default.c
-  statement by statement; `Config` selects the variant of the five places where a repair is
-  proposed (`Config.shipped` = the tree as it is, `Config.repaired` = all patches of fixes/ applied);
+  statement by statement; `Config` selects the variant of the eleven places that have been repaired
+  (`Config.shipped` = the tree as first shipped, `Config.repaired` = every patch of fixes/ applied, which is what /repo has now);
   the driver takes the variant from `Gen/EvLoop.lean`, which is regenerated from the C source.
 
   Every theorem below is universally quantified: over *all* states (arbitrary heap, queues, behaviour
